@@ -53,12 +53,14 @@ func ChopFile(ctx context.Context, name string, chunks []IndexChunk, ws WriteSto
 	}
 
 	// Feed the workers, stop if there are any errors
+	var interrupted bool
 loop:
 	for _, c := range chunks {
 		verifYield("pl.feed", "id", c.ID, "start", c.Start)
 		select {
 		case <-ctx.Done():
 			verifYield("pl.leave")
+			interrupted = true
 			break loop
 		case in <- c:
 		}
@@ -67,7 +69,13 @@ loop:
 	verifYield("pl.close")
 	close(in)
 
-	return g.Wait()
+	if err := g.Wait(); err != nil {
+		return err
+	}
+	if interrupted { // stopped feeding without a worker error: not all chunks were processed
+		return Interrupted{}
+	}
+	return nil
 }
 
 // Helper function to read chunk contents from file
